@@ -520,7 +520,11 @@ func init() {
 		},
 		"time.NewTicker": func(w *W, s *State, args []Value) Value {
 			// a ticker that never fires by itself (real tickers are outside the claim)
-			if d, ok := concInt(args[0]); ok && d <= 0 {
+			if d, ok := concInt(args[0]); ok {
+				if d <= 0 {
+					panic(pathEnd{"panic: non-positive interval for NewTicker"})
+				}
+			} else if w.decide(s, BvCmp("bvsle", term(args[0]), ConstI(0, 64))) {
 				panic(pathEnd{"panic: non-positive interval for NewTicker"})
 			}
 			ch := ChanV{Obj: w.e.alloc(s, &ChanData{Cap: 1})}
